@@ -546,4 +546,80 @@ def rule_ms6(ctx: Ctx) -> RuleResult:
     return r
 
 
-RULES = [rule_ms, rule_ms6]
+def _marker_relation(test, outcome, slot_ok):
+    """(marker name, holds) if the decision compares a slot of the marker table with a marker code: holds tells whether
+    'slot == code' is true on this outcome; None otherwise"""
+    if test[0] == "not":
+        return _marker_relation(test[1], not outcome, slot_ok)
+    if test[0] != "cmp" or test[1] not in ("Eq", "NotEq", "Is", "IsNot"):
+        return None
+    for a, b in ((test[2], test[3]), (test[3], test[2])):
+        code = _marker_code(b)
+        if code is not None and a[0] == "sub" and _arr(a[1]) == "state" and slot_ok(a[2]):
+            return code, outcome == (test[1] in ("Eq", "Is"))
+    return None
+
+
+def rule_ms7(ctx: Ctx) -> RuleResult:
+    """is_set / is_cleared answer from the marker of the method's own slot; iterate enumerates exactly the slots that are not
+    CLEARED, each with its own key, value and 'is set' flag."""
+    r = RuleResult("MS-7", "is_set / is_cleared read the marker of slot key[0]; iterate yields (keys[i], values[i], state[i] == SET) for exactly the slots not CLEARED")
+    for name, code in (("is_set", "SET"), ("is_cleared", "CLEARED")):
+        mm, fn = _method(ctx, name)
+        r.instances += 1
+        for p in ctx.fn_paths(mm, fn):
+            r.paths += 1
+            v = p.value
+            rel = None
+            for e in p.trace:
+                if e.k == "decision":
+                    rel = _marker_relation(e.test, e.outcome, _key0) or rel
+            if rel is not None:
+                ok = rel[0] == code and v == ("const", rel[1])
+            else:
+                vr = _marker_relation(v, True, _key0) if v is not None and v[0] in ("cmp", "not") else None
+                ok = vr is not None and vr == (code, True)
+            r.ob(ok, lambda name=name, code=code, v=v, p=p: _f(
+                "MS-7", name, mm, fn, "%s(key) must be True exactly when the marker of slot key[0] is %s; this path [%s] returns %s" % (
+                    name, code, "; ".join(e.brief() for e in p.trace if e.k == "decision"), show(v) if v is not None else None), trace_of(p)))
+    mm, fn = _method(ctx, "iterate")
+    r.instances += 1
+    n_yield = 0
+    for p in ctx.fn_paths(mm, fn, max_iter=1):
+        r.paths += 1
+        its = [e for e in p.trace if e.k == "loopiter"]
+        if not its:
+            continue
+        it = its[0]
+        I = it.var
+        rng = it.iter
+        ok_rng = rng[0] == "call" and rng[1] == ("builtin", "range") and len(rng[2]) == 1 and rng[2][0][0] == "call" and rng[2][0][1] == ("builtin", "len") \
+            and _arr(rng[2][0][2][0]) in ARRAYS
+        r.ob(ok_rng, lambda: _f("MS-7", "iterate{range}", mm, it.node, "iterate must visit every slot index: range(len(<one of the three arrays>)); it iterates %s" % show(rng)))
+        cleared = None
+        for e in p.trace:
+            if e.k == "decision":
+                rel = _marker_relation(e.test, e.outcome, lambda x: x == I)
+                if rel is not None and rel[0] == "CLEARED":
+                    cleared = rel[1]
+        ys = [e for e in p.trace if e.k == "yield"]
+        if cleared is None:
+            r.ob(False, lambda: _f("MS-7", "iterate{filter}", mm, it.node, "iterate does not test whether the slot is CLEARED", trace_of(p)))
+            continue
+        if cleared:
+            r.ob(not ys, lambda: _f("MS-7", "iterate{filter}", mm, ys[0].node, "iterate yields a CLEARED slot (a deleted key)", trace_of(p)))
+            continue
+        n_yield += 1
+        ok = len(ys) == 1
+        if ok:
+            v = ys[0].value
+            ok = v[0] == "tuple" and len(v) == 4 and v[1][0] == "sub" and _arr(v[1][1]) == "keys" and v[1][2] == I \
+                and v[2][0] == "sub" and _arr(v[2][1]) == "values" and v[2][2] == I and _marker_relation(v[3], True, lambda x: x == I) == ("SET", True)
+        r.ob(ok, lambda: _f("MS-7", "iterate{yield}", mm, (ys[0].node if ys else it.node),
+                            "for a slot that is not CLEARED iterate must yield (keys[i], values[i], state[i] == SET) once; it yields %s" % [show(y.value) for y in ys], trace_of(p)))
+    r.ob(n_yield >= 1, lambda: _f("MS-7", "iterate{yield}", mm, fn, "iterate has no path that yields a live slot"))
+    r.require_instances(3)
+    return r
+
+
+RULES = [rule_ms, rule_ms6, rule_ms7]
